@@ -711,3 +711,85 @@ func (c *Ctx) queueRelayoutInBounds() {
 	c.R.Floor("functions giving the in-flight queue a new ring (grow)", len(hosts), 1)
 	c.R.Floor("index/slice sites in queue re-layout functions (and the helpers they copy through)", n, 1)
 }
+
+// startWritesNoPackets: the function that starts a connection registers it in the topic tree (the stored
+// subscriptions of a resumed session) and starts its goroutines; from the first registration on, other connections'
+// processors deliver to this connection in the order their publishers sent. A packet that start() itself writes into the
+// outgoing ring after that point (a resend of what the previous connection left unacknowledged, say) goes out
+// behind newer messages of the same publisher. Whatever start() sends, it sends before the first registration.
+func (c *Ctx) startWritesNoPackets() {
+	r := c.Roles()
+	if r.Start == nil || r.RingWrite == nil {
+		c.R.Unresolved("start / ring writer")
+		return
+	}
+	c.useRules(ruleP5)
+	g := paths.New(c.P, r.Start, 2)
+	g.Expand = func(callee *ssa.Function, site ssa.CallInstruction) bool {
+		return callee != nil && callee.Blocks != nil && callee != r.RingWrite && callee.Pkg != nil && callee.Pkg.Pkg.Path() == pkgService && recvNamed(callee) == "service"
+	}
+	reg := nodeM(mMethod(pkgTopics, "Manager", "Subscribe"))
+	write := nodeM(mCallee(r.RingWrite))
+	var bad []paths.Node
+	for _, rn := range nodesMatching(g, reg) {
+		if p := g.FindPath(g.Succ(rn), nil, write); p != nil {
+			bad = append([]paths.Node{rn}, p...)
+		}
+	}
+	if bad != nil {
+		c.R.Bad(ruleP5, "start:no-packet-written-after-the-tree-registration", c.P.InstrPos(bad[len(bad)-1].Instr), "start() writes a packet into the outgoing ring after it has registered the connection's subscriptions in the topic tree: from that registration on other connections deliver to this one, so what start() sends afterwards (older, unacknowledged messages of a resumed session) goes out behind newer messages of the same publisher", c.witness(g, bad)...)
+	} else {
+		c.R.Ok(ruleP5, "start:no-packet-written-after-the-tree-registration", c.P.Pos(r.Start.Pos()), fmt.Sprintf("%d registration site(s), no ring write reachable after them inside start()", len(nodesMatching(g, reg))))
+	}
+}
+
+// queueHandsOutOnlyRemovedEntries: G6, hand-out side. The buffers of an entry (Msgbuf, Ackbuf) belong to the queue
+// while the entry is in the ring: the processor decodes them under way (processAcked, after Acked() has taken the
+// entry out), Ack() replaces Ackbuf. A method that copies live ring entries into its result hands the same buffers to
+// its caller, which reads or changes them (a DUP flag set for a resend) without the queue's lock while the
+// processor uses them. Only the release function - which removes what it returns - may hand entries out.
+func (c *Ctx) queueHandsOutOnlyRemovedEntries() {
+	c.useRules(ruleG6)
+	removeHead := c.P.Func("sessions", "Ackqueue", "removeHead")
+	n := 0
+	for _, fn := range c.P.Funcs {
+		if fn.Pkg == nil || fn.Pkg.Pkg.Path() != pkgSessions || recvNamed(fn) != "Ackqueue" || fn.Parent() != nil || fn.Blocks == nil {
+			continue
+		}
+		res := fn.Signature.Results()
+		hands := false
+		for i := 0; i < res.Len(); i++ {
+			t := res.At(i).Type()
+			if sl, ok := t.Underlying().(*types.Slice); ok {
+				t = sl.Elem()
+			}
+			if pt, ok := t.Underlying().(*types.Pointer); ok {
+				t = pt.Elem()
+			}
+			if namedName(t) == "AckMsg" {
+				hands = true
+			}
+		}
+		if !hands {
+			continue
+		}
+		n++
+		removes := removeHead != nil && c.reaches(fn, removeHead, 2)
+		copies := ""
+		for _, b := range fn.Blocks {
+			for _, in := range b.Instrs {
+				u, ok := in.(*ssa.UnOp)
+				if !ok || u.Op != token.MUL || namedName(u.Type()) != "AckMsg" {
+					continue
+				}
+				if ia, ok := u.X.(*ssa.IndexAddr); ok && ir.PathOf(ia.X).Class() == "sessions.Ackqueue.ring" {
+					copies = c.P.InstrPos(u)
+				}
+			}
+		}
+		c.R.Check(copies == "" || removes, ruleG6, fname(fn)+":hands-out-only-entries-it-removes", c.P.Pos(fn.Pos()),
+			"the method returns entries it takes out of the ring (or none of the ring's entries)",
+			fname(fn)+" copies live ring entries into its result ("+copies+") without removing them: the caller gets the entries' own Msgbuf / Ackbuf and uses them outside the queue's lock while the processor decodes the same bytes (and Ack replaces them)")
+	}
+	c.R.Count("queue methods handing out entries", n)
+}
